@@ -172,27 +172,30 @@ def rule_shared_sent(R):
     _r(R)
 
 
-def clause_pubrec_reaches_removal(R, key):
-    """Every PUBREC is looked up: no path through the PUBREC arm leaves the handler before the retained removal was
-    attempted.  A test placed in front of it (for room in some table, say) that returns early consumes the PUBREC of a
-    message the broker has accepted -- no PUBREL follows, and the PUBLISH is re-sent on the next resumed connection."""
+def clause_ack_reaches_removal(R, key, arm, role):
+    """Every acknowledgement is looked up: no path through its arm of the inbound handler leaves the handler before the
+    removal from the table it acknowledges was attempted.  A test placed in front of it that returns early consumes the
+    acknowledgement -- after a PUBREC of an accepted message no PUBREL follows; after a PUBACK / PUBCOMP the entry stays and
+    is re-sent on the next resumed connection although it was acknowledged."""
     from .. import paths
     f = R.f
     hb, sw = outq.inbound_handler(f)
-    _, entry, blocks = outq.handler_arm(f, "PubRec")
-    rem = outq.role_fn(f, "retained_removal")
+    _, entry, blocks = outq.handler_arm(f, arm)
+    rem = outq.role_fn(f, role)
     rblocks = set(c.bb for c in outq.calls_to(f, hb, rem) if c.bb in blocks)
     if not rblocks:
-        raise AnchorLost("pubrec-removal-call")
+        raise AnchorLost("%s-removal-call" % arm)
     early = None
     for lf in paths.explore(hb, entry, lambda x: False, lambda b, bb: False, stop_pred=lambda b, x: x in rblocks, max_paths=3000):
-        if lf["kind"] == "return" and early is None:
-            early = lf["path"][-1]
-        if lf["kind"] == "limit" and early is None:
+        if lf["kind"] in ("return", "limit") and early is None:
             early = lf["path"][-1]
     R.ob(key, early is None,
-         "every path through the PUBREC arm attempts the retained removal before it leaves the handler (an early return "
-         "consumes the PUBREC of an accepted message)", where=hb.line(early) if early is not None else hb.line(entry))
+         "every path through the %s arm attempts the removal (%s) before it leaves the handler (an early return "
+         "consumes the acknowledgement)" % (arm, rem.fn_name), where=hb.line(early) if early is not None else hb.line(entry))
+
+
+def clause_pubrec_reaches_removal(R, key):
+    clause_ack_reaches_removal(R, key, "PubRec", "retained_removal")
 
 
 def clause_pubrec_success_continues(R, key):
@@ -274,6 +277,7 @@ def clause_pubrec_success_continues(R, key):
 def rule_success_continues(R):
     clause_pubrec_success_continues(R, "rel/success-continues")
     clause_pubrec_reaches_removal(R, "rel/pubrec-reaches-removal")
+    clause_ack_reaches_removal(R, "comp/pubcomp-reaches-removal", "PubComp", "release_removal")
 
 
 def run(R):
